@@ -1,4 +1,855 @@
+(* Proofs for property C08 about the model in BufferModel.v.
+
+   inv b        the representation invariant of one Buffer variable (own b = Some a: the window
+                is inside the allocation of capf+1 cells and the cell at [stop] holds 0; own b =
+                None: capf = 0 and the window is inside the attached range or is the empty window
+                on a _capacity field)
+   ref b q      the bytes the model exposes agree with the reference queue wherever the queue
+                is specified
+   Every method is shown to succeed from [inv] (no Err: no access outside the own allocation /
+   the attached range, no write into foreign memory), to re-establish [inv] and to expose
+   exactly the expected bytes.  The world-level statements follow by case analysis on the op. *)
 From Coq Require Import ZArith List Bool Arith Lia.
 From Common Require Import ListAux.
-From Buffer Require Import BufferSpec BufferModel.
+From Buffer Require Import BufferSpec BufferModel BufferLists.
 Import ListNotations.
+
+(* ---- invariant and abstraction ---------------------------------------------------------- *)
+
+Definition inv (b : buf) : Prop :=
+  match own b with
+  | Some a => wb b = BOwn /\ length a = capf b + 1 /\ start b <= stop b /\ stop b <= capf b
+              /\ nth_error a (stop b) = Some (Some 0%Z)
+  | None => capf b = 0 /\
+            match wb b with
+            | BOwn => False
+            | BReg r => start b <= stop b /\ stop b <= length r
+            | BCap _ => start b = 0 /\ stop b = 0
+            end
+  end.
+
+Definition ref (b : buf) (q : queue) : Prop := Forall2 cell_ref (exposed b) q.
+Definition winv (w : world) : Prop := Forall inv w.
+Definition wref (w : world) (qs : list queue) : Prop := Forall2 ref w qs.
+
+(* the exposed bytes in closed form *)
+Definition view (b : buf) : list cell :=
+  match own b with
+  | Some a => slice a (start b) (stop b - start b)
+  | None => match wb b with
+            | BReg r => known (slice r (start b) (stop b - start b))
+            | _ => []
+            end
+  end.
+
+Lemma rd_win_prefix b k : inv b -> k <= stop b - start b -> rd_win b (start b) k = Ok (firstn k (view b)).
+Proof.
+  intros I Hk. unfold inv in I. unfold rd_win, view.
+  destruct (own b) as [a|] eqn:Eo.
+  - destruct I as (Hw & Hl & Hse & Hec & Ht). rewrite Hw.
+    rewrite rd_ok by lia. f_equal. list_eq.
+  - destruct I as (Hc & I). destruct (wb b) as [|r|v] eqn:Ew; [contradiction| |].
+    + destruct I as [Hse Her].
+      replace (start b + k <=? length r) with true by (symmetry; apply Nat.leb_le; lia).
+      f_equal. unfold known. list_eq.
+    + destruct I as [Hs He]. rewrite Hs.
+      replace k with 0 by lia. reflexivity.
+Qed.
+
+Lemma view_length b : inv b -> length (view b) = stop b - start b.
+Proof.
+  intros I. unfold inv in I. unfold view.
+  destruct (own b) as [a|] eqn:Eo.
+  - destruct I as (Hw & Hl & Hse & Hec & Ht). len. reflexivity.
+  - destruct I as (Hc & I). destruct (wb b) as [|r|v] eqn:Ew; [contradiction| |].
+    + destruct I as [Hse Her]. len. reflexivity.
+    + destruct I as [Hs He]. cbn [length]. lia.
+Qed.
+
+Lemma inv_le b : inv b -> start b <= stop b.
+Proof.
+  unfold inv. destruct (own b); [lia|]. destruct (wb b); lia.
+Qed.
+
+Lemma win_inv b : inv b -> win b = Ok (view b).
+Proof.
+  intro I. unfold win, size. rewrite rd_win_prefix by (auto; lia).
+  f_equal. rewrite <- (view_length b I). apply firstn_all.
+Qed.
+
+Lemma exposed_inv b : inv b -> exposed b = view b.
+Proof. intro I. unfold exposed. rewrite win_inv by exact I. reflexivity. Qed.
+
+Lemma exposed_length b : inv b -> length (exposed b) = size b.
+Proof. intro I. rewrite exposed_inv by exact I. apply view_length; exact I. Qed.
+
+(* ---- the common tail of every owning branch: write the terminator ------------------------ *)
+
+Lemma finish_own a s e c :
+  length a = c + 1 -> s <= e -> e <= c ->
+  exists b', set_terminator (mkbuf (Some a) BOwn s e c) = Ok b' /\ inv b' /\
+             exposed b' = slice a s (e - s) /\ owns b' = true /\ capf b' = c /\ start b' = s /\ stop b' = e.
+Proof.
+  intros Hl Hse Hec.
+  exists (mkbuf (Some (splice a e [Some 0%Z])) BOwn s e c).
+  assert (I : inv (mkbuf (Some (splice a e [Some 0%Z])) BOwn s e c)).
+  { unfold inv; cbn [own wb start stop capf]. repeat split; try lia.
+    - len. exact Hl.
+    - nth_at. }
+  split; [|split; [exact I|split; [|repeat split]]].
+  - unfold set_terminator, wr_win; cbn [own wb start stop capf].
+    rewrite wr_ok by (cbn [length]; lia). reflexivity.
+  - rewrite exposed_inv by exact I. unfold view; cbn [own wb start stop capf]. list_eq.
+Qed.
+
+Lemma splice_same {A} (a : list A) e x : nth_error a e = Some x -> splice a e [x] = a.
+Proof.
+  intro H. assert (He : e < length a) by (apply nth_error_Some; congruence).
+  apply nth_error_ext'; intro i. rewrite nth_error_splice by lia. cbn [length].
+  destruct (i <? e) eqn:E1; [reflexivity|]. apply Nat.ltb_ge in E1.
+  destruct (i <? e + 1) eqn:E2; [|reflexivity]. apply Nat.ltb_lt in E2.
+  replace i with e by lia. rewrite Nat.sub_diag. cbn [nth_error]. symmetry; exact H.
+Qed.
+
+Lemma terminate_ok b : inv b -> terminate_if_owned b = Ok b.
+Proof.
+  intro I. unfold inv in I. unfold terminate_if_owned, set_terminator, wr_win.
+  destruct b as [o w s e c]; cbn [own wb start stop capf] in *.
+  destruct o as [a|]; [|reflexivity].
+  destruct I as (Hw & Hl & Hse & Hec & Ht). subst w.
+  rewrite wr_ok by (cbn [length]; lia). cbn [bind]. rewrite splice_same by exact Ht. reflexivity.
+Qed.
+
+(* ---- assign / operator= ------------------------------------------------------------------ *)
+
+Lemma assign_ok b d : inv b -> exists b', assign_ b d = Ok b' /\ inv b' /\ exposed b' = d.
+Proof.
+  intro I. unfold assign_.
+  destruct (capf b <? length d) eqn:E.
+  - unfold copy_in; cbn [own wb start stop capf].
+    rewrite wr_ok by (len; lia). cbn [bind].
+    destruct (finish_own (splice (new_array (length d + 1)) 0 d) 0 (length d) (length d)) as (b' & H1 & H2 & H3 & _);
+      [len; lia | lia | lia |].
+    exists b'. split; [exact H1|split; [exact H2|]]. rewrite H3. list_eq.
+  - apply Nat.ltb_ge in E. pose proof I as I0. unfold inv in I.
+    destruct (own b) as [a|] eqn:Eo.
+    + destruct I as (Hw & Hl & Hse & Hec & Ht).
+      unfold copy_in. rewrite Eo. rewrite wr_ok by lia. cbn [bind].
+      destruct (finish_own (splice a 0 d) 0 (length d) (capf b)) as (b' & H1 & H2 & H3 & _);
+        [len; lia | lia | lia |].
+      exists b'. split; [exact H1|split; [exact H2|]]. rewrite H3. list_eq.
+    + destruct I as (Hc & I).
+      assert (Hd : d = []) by (destruct d; [reflexivity|cbn [length] in E; lia]).
+      eexists. split; [reflexivity|].
+      assert (I' : inv (mkbuf None (wb b) (start b) (start b) (capf b))).
+      { unfold inv; cbn [own wb start stop capf]. split; [exact Hc|].
+        destruct (wb b); [contradiction|lia|lia]. }
+      split; [exact I'|]. rewrite exposed_inv by exact I'. unfold view; cbn [own wb start stop capf].
+      subst d. rewrite Nat.sub_diag. destruct (wb b); reflexivity.
+Qed.
+
+(* ---- prepend: head-room / in-place shift / reallocate -------------------------------------- *)
+
+Lemma prepend_realloc_ok b d : inv b -> exists b', prepend_realloc b d = Ok b' /\ inv b' /\ exposed b' = d ++ exposed b.
+Proof.
+  intro I. unfold prepend_realloc.
+  rewrite wr_ok by (len; lia). cbn [bind].
+  rewrite rd_win_prefix by (auto; unfold size; lia). cbn [bind].
+  pose proof (view_length b I) as Hv. unfold size.
+  rewrite firstn_all2 by lia.
+  rewrite wr_ok by (len; lia). cbn [bind].
+  set (req := length d + (stop b - start b)).
+  destruct (finish_own (splice (splice (new_array (req + 1)) 0 d) (length d) (view b)) 0 req req) as (b' & H1 & H2 & H3 & _);
+    [len; lia | lia | lia |].
+  exists b'. split; [exact H1|split; [exact H2|]]. rewrite H3, exposed_inv by exact I.
+  subst req. list_eq.
+Qed.
+
+Lemma prepend_ok b d : inv b -> exists b', prepend_ b d = Ok b' /\ inv b' /\ exposed b' = d ++ exposed b.
+Proof.
+  intro I. pose proof (exposed_inv b I) as Ex. pose proof I as I0.
+  unfold inv in I. unfold view in Ex. unfold prepend_, headroom.
+  destruct (own b) as [a|] eqn:Eo.
+  - destruct I as (Hw & Hl & Hse & Hec & Ht). rewrite Hw. cbn [bind].
+    destruct (length d <=? start b) eqn:Eh.
+    + (* head-room *)
+      apply Nat.leb_le in Eh.
+      unfold wr_win; cbn [own wb start stop capf].
+      rewrite wr_ok by lia. cbn [bind].
+      eexists. split; [reflexivity|].
+      assert (I' : inv (mkbuf (Some (splice a (start b - length d) d)) BOwn (start b - length d) (stop b) (capf b))).
+      { unfold inv; cbn [own wb start stop capf]. repeat split; try lia.
+        - len. exact Hl.
+        - nth_at. }
+      split; [exact I'|]. rewrite exposed_inv by exact I'. unfold view; cbn [own wb start stop capf].
+      rewrite Ex. list_eq.
+    + apply Nat.leb_gt in Eh. unfold size.
+      destruct (length d + (stop b - start b) <=? capf b) eqn:Ec.
+      * (* in-place shift *)
+        apply Nat.leb_le in Ec.
+        rewrite rd_ok by lia. cbn [bind].
+        rewrite wr_ok by (len; lia). cbn [bind].
+        rewrite wr_ok by (len; lia). cbn [bind].
+        destruct (finish_own (splice (splice a (length d) (slice a (start b) (stop b - start b))) 0 d) 0
+                             (length d + (stop b - start b)) (capf b)) as (b' & H1 & H2 & H3 & _);
+          [len; lia | lia | lia |].
+        exists b'. split; [exact H1|split; [exact H2|]]. rewrite H3, Ex. list_eq.
+      * apply prepend_realloc_ok; exact I0.
+  - cbn [bind]. apply prepend_realloc_ok; exact I0.
+Qed.
+
+(* ---- resize: reallocate / in place / compact to front / non-owning ------------------------- *)
+
+Lemma resize_ok b n : inv b ->
+  exists b' t, resize_ b n = Ok b' /\ inv b' /\
+               exposed b' = firstn n (exposed b) ++ t /\ length t = n - size b /\
+               (owns b' = true \/ n = 0).
+Proof.
+  intro I. pose proof (exposed_inv b I) as Ex. pose proof (view_length b I) as Hv. pose proof I as I0.
+  unfold inv in I. unfold resize_.
+  destruct (capf b <? n) eqn:E.
+  - (* reallocate *)
+    apply Nat.ltb_lt in E. unfold size.
+    rewrite rd_win_prefix by (auto; lia). cbn [bind].
+    rewrite wr_ok by (len; lia). cbn [bind].
+    destruct (finish_own (splice (new_array (n + 1)) 0 (firstn (Nat.min (stop b - start b) n) (view b))) 0 n n)
+      as (b' & H1 & H2 & H3 & H4 & _); [len; lia | lia | lia |].
+    exists b', (repeat None (n - (stop b - start b))).
+    split; [exact H1|split; [exact H2|split; [|split; [len; reflexivity|left; exact H4]]]].
+    rewrite H3, Ex. list_eq.
+  - apply Nat.ltb_ge in E. unfold view in Ex.
+    destruct (own b) as [a|] eqn:Eo.
+    + destruct I as (Hw & Hl & Hse & Hec & Ht). rewrite Hw.
+      destruct (start b + n <=? capf b) eqn:Ei.
+      * (* in place *)
+        apply Nat.leb_le in Ei.
+        destruct (finish_own a (start b) (start b + n) (capf b)) as (b' & H1 & H2 & H3 & H4 & _); [lia | lia | lia |].
+        exists b', (slice a (stop b) (n - (stop b - start b))).
+        split; [exact H1|split; [exact H2|split; [|split; [unfold size; len; reflexivity|left; exact H4]]]].
+        rewrite H3, Ex. list_eq.
+      * (* compact to front *)
+        apply Nat.leb_gt in Ei. unfold size.
+        rewrite rd_ok by lia. cbn [bind].
+        rewrite wr_ok by (len; lia). cbn [bind].
+        destruct (finish_own (splice a 0 (slice a (start b) (stop b - start b))) 0 n (capf b))
+          as (b' & H1 & H2 & H3 & H4 & _); [len; lia | lia | lia |].
+        exists b', (slice a (stop b - start b) (n - (stop b - start b))).
+        split; [exact H1|split; [exact H2|split; [|split; [len; reflexivity|left; exact H4]]]].
+        rewrite H3, Ex. list_eq.
+    + destruct I as (Hc & I).
+      exists (mkbuf None (wb b) (start b) (start b) (capf b)), [].
+      split; [reflexivity|].
+      assert (I' : inv (mkbuf None (wb b) (start b) (start b) (capf b))).
+      { unfold inv; cbn [own wb start stop capf]. split; [exact Hc|].
+        destruct (wb b); [contradiction|lia|lia]. }
+      split; [exact I'|]. split; [|split; [cbn [length]; lia|right; lia]].
+      rewrite exposed_inv by exact I'. unfold view; cbn [own wb start stop capf].
+      replace n with 0 by lia. rewrite Nat.sub_diag. destruct (wb b); reflexivity.
+Qed.
+
+(* ---- append = resize, then overwrite the tail, then terminate ------------------------------ *)
+
+Lemma overwrite_tail b d :
+  inv b -> length d <= size b -> (owns b = true \/ length d = 0) ->
+  exists b', wr_win b (stop b - length d) d = Ok b' /\ inv b' /\
+             exposed b' = firstn (size b - length d) (exposed b) ++ d.
+Proof.
+  intros I Hn Ho. pose proof (exposed_inv b I) as Ex. pose proof I as I0.
+  unfold inv in I. unfold view in Ex. unfold size in *. unfold wr_win.
+  destruct (own b) as [a|] eqn:Eo.
+  - destruct I as (Hw & Hl & Hse & Hec & Ht). rewrite Hw.
+    rewrite wr_ok by lia. cbn [bind].
+    eexists. split; [reflexivity|].
+    assert (I' : inv (mkbuf (Some (splice a (stop b - length d) d)) BOwn (start b) (stop b) (capf b))).
+    { unfold inv; cbn [own wb start stop capf]. repeat split; try lia.
+      - len. exact Hl.
+      - nth_at. }
+    split; [exact I'|]. rewrite exposed_inv by exact I'. unfold view; cbn [own wb start stop capf].
+    rewrite Ex. list_eq.
+  - assert (Hd : d = []).
+    { destruct Ho as [Ho|Ho]; [unfold owns in Ho; rewrite Eo in Ho; discriminate|].
+      destruct d; [reflexivity|discriminate]. }
+    subst d. exists b. split; [destruct (wb b); [destruct I as [_ []]|reflexivity|reflexivity]|]. split; [exact I0|].
+    cbn [length]. rewrite Nat.sub_0_r, app_nil_r.
+    symmetry. apply firstn_all2. rewrite exposed_length by exact I0. unfold size. lia.
+Qed.
+
+Lemma append_ok b d : inv b -> exists b', append_ b d = Ok b' /\ inv b' /\ exposed b' = exposed b ++ d.
+Proof.
+  intro I. unfold append_.
+  destruct (resize_ok b (size b + length d) I) as (b1 & t & H1 & I1 & Ex1 & Ht & Ho1).
+  rewrite H1. cbn [bind].
+  pose proof (exposed_length b I) as Hl. pose proof (exposed_length b1 I1) as Hl1.
+  rewrite firstn_all2 in Ex1 by lia.
+  assert (Hs1 : size b1 = size b + length d).
+  { rewrite <- Hl1, Ex1, app_length. lia. }
+  destruct (overwrite_tail b1 d I1) as (b2 & H2 & I2 & Ex2); [lia | destruct Ho1; [left; assumption|right; lia] |].
+  rewrite H2. cbn [bind]. rewrite terminate_ok by exact I2.
+  exists b2. split; [reflexivity|split; [exact I2|]].
+  rewrite Ex2, Ex1, Hs1. replace (size b + length d - length d) with (length (exposed b)) by lia.
+  rewrite firstn_app, Nat.sub_diag, firstn_all. cbn [firstn]. rewrite app_nil_r. reflexivity.
+Qed.
+
+Lemma append_self_ok b : inv b -> exists b', append_self b = Ok b' /\ inv b' /\ exposed b' = exposed b ++ exposed b.
+Proof.
+  intro I. unfold append_self.
+  destruct (resize_ok b (size b + size b) I) as (b1 & t & H1 & I1 & Ex1 & Ht & Ho1).
+  rewrite H1. cbn [bind].
+  pose proof (exposed_length b I) as Hl. pose proof (exposed_length b1 I1) as Hl1.
+  rewrite firstn_all2 in Ex1 by lia.
+  assert (Hs1 : size b1 = size b + size b).
+  { rewrite <- Hl1, Ex1, app_length. lia. }
+  change (size b1) with (stop b1 - start b1) in Hs1.
+  rewrite rd_win_prefix by (auto; lia). cbn [bind].
+  assert (Hf : firstn (size b) (view b1) = exposed b).
+  { rewrite <- exposed_inv by exact I1. rewrite Ex1, <- Hl, firstn_app, Nat.sub_diag, firstn_all.
+    cbn [firstn]. apply app_nil_r. }
+  rewrite Hf.
+  replace (disjoint (start b1) (stop b1 - size b) (size b)) with true.
+  2:{ symmetry. unfold disjoint. apply orb_true_iff. left. apply orb_true_iff. right. apply Nat.leb_le. pose proof (inv_le b1 I1). lia. }
+  pose proof (overwrite_tail b1 (exposed b) I1) as OT. rewrite Hl in OT.
+  destruct OT as (b2 & H2 & I2 & Ex2); [change (size b1) with (stop b1 - start b1); lia | destruct Ho1; [left; assumption|right; lia] |].
+  rewrite H2. cbn [bind]. rewrite terminate_ok by exact I2.
+  exists b2. split; [reflexivity|split; [exact I2|]].
+  rewrite Ex2, Ex1. change (size b1) with (stop b1 - start b1). rewrite Hs1.
+  replace (size b + size b - size b) with (length (exposed b)) by lia.
+  rewrite firstn_app, Nat.sub_diag, firstn_all. cbn [firstn]. rewrite app_nil_r. reflexivity.
+Qed.
+
+(* ---- removeFront / removeBack -------------------------------------------------------------- *)
+
+(* the state after "bufferStart = bufferEnd = buffer ? buffer : &_capacity", from any window *)
+Lemma reset_then_terminate self o w s e c :
+  (match o with Some a => length a = c + 1 | None => c = 0 end) ->
+  exists b', terminate_if_owned (reset_empty self (mkbuf o w s e c)) = Ok b' /\ inv b' /\ exposed b' = [].
+Proof.
+  intro H. unfold reset_empty; cbn [own wb start stop capf].
+  destruct o as [a|].
+  - unfold terminate_if_owned; cbn [own].
+    destruct (finish_own a 0 0 c) as (b' & H1 & H2 & H3 & _); [exact H|lia|lia|].
+    exists b'. split; [exact H1|split; [exact H2|]]. rewrite H3. reflexivity.
+  - eexists. split; [reflexivity|].
+    assert (I' : inv (mkbuf None (BCap self) 0 0 c)).
+    { unfold inv; cbn [own wb start stop capf]. lia. }
+    split; [exact I'|]. rewrite exposed_inv by exact I'. reflexivity.
+Qed.
+
+Lemma inv_shape b : inv b -> match own b with Some a => length a = capf b + 1 | None => capf b = 0 end.
+Proof. unfold inv. destruct (own b); tauto. Qed.
+
+Lemma remove_front_ok self b n : inv b ->
+  exists b', remove_front self b n = Ok b' /\ inv b' /\ exposed b' = skipn n (exposed b).
+Proof.
+  intro I. pose proof (exposed_inv b I) as Ex. pose proof (exposed_length b I) as Hl. pose proof I as I0.
+  pose proof (inv_le b I) as Hle.
+  unfold remove_front.
+  destruct (size b <=? n) eqn:E.
+  - apply Nat.leb_le in E. destruct b as [o w s e c]; cbn [own wb start stop capf] in *.
+    destruct (reset_then_terminate self o w s e c (inv_shape _ I)) as (b' & H1 & H2 & H3).
+    exists b'. split; [exact H1|split; [exact H2|]]. rewrite H3.
+    symmetry. apply skipn_all2. lia.
+  - apply Nat.leb_gt in E. unfold size in E. eexists. split; [reflexivity|].
+    unfold inv in I. unfold view in Ex.
+    assert (I' : inv (mkbuf (own b) (wb b) (start b + n) (stop b) (capf b))).
+    { unfold inv; cbn [own wb start stop capf]. destruct (own b) as [a|].
+      - repeat split; try tauto; lia.
+      - destruct (wb b); [tauto|lia|lia]. }
+    split; [exact I'|]. rewrite exposed_inv by exact I'. rewrite Ex. unfold view; cbn [own wb start stop capf].
+    destruct (own b) as [a|].
+    + destruct I as (Hw & Hl' & Hse & Hec & Ht). list_eq.
+    + destruct I as (Hc & I). destruct (wb b) as [|r|v]; [contradiction| |].
+      * destruct I as [Hse Her]. unfold known. list_eq.
+      * symmetry. apply skipn_nil.
+Qed.
+
+Lemma remove_back_ok self b n : inv b ->
+  exists b', remove_back self b n = Ok b' /\ inv b' /\ exposed b' = firstn (size b - n) (exposed b).
+Proof.
+  intro I. pose proof (exposed_inv b I) as Ex. pose proof I as I0. pose proof (inv_le b I) as Hle.
+  unfold remove_back.
+  destruct (size b <=? n) eqn:E.
+  - apply Nat.leb_le in E. destruct b as [o w s e c]; cbn [own wb start stop capf] in *.
+    destruct (reset_then_terminate self o w s e c (inv_shape _ I)) as (b' & H1 & H2 & H3).
+    exists b'. split; [exact H1|split; [exact H2|]]. rewrite H3.
+    replace (size _ - n) with 0 by lia. reflexivity.
+  - apply Nat.leb_gt in E. unfold inv in I. unfold view in Ex. unfold size in *.
+    destruct (own b) as [a|] eqn:Eo.
+    + destruct I as (Hw & Hl' & Hse & Hec & Ht).
+      unfold terminate_if_owned; cbn [own]. rewrite Hw.
+      destruct (finish_own a (start b) (stop b - n) (capf b)) as (b' & H1 & H2 & H3 & _); [lia|lia|lia|].
+      exists b'. split; [exact H1|split; [exact H2|]]. rewrite H3, Ex. list_eq.
+    + destruct I as (Hc & I). unfold terminate_if_owned; cbn [own].
+      eexists. split; [reflexivity|].
+      assert (I' : inv (mkbuf None (wb b) (start b) (stop b - n) (capf b))).
+      { unfold inv; cbn [own wb start stop capf]. split; [exact Hc|]. destruct (wb b); [tauto|lia|lia]. }
+      split; [exact I'|]. rewrite exposed_inv by exact I'. rewrite Ex. unfold view; cbn [own wb start stop capf].
+      destruct (wb b) as [|r|v]; [contradiction| |].
+      * destruct I as [Hse Her]. unfold known. list_eq.
+      * symmetry. apply firstn_nil.
+Qed.
+
+(* an argument at or beyond the current size acts like any other such argument (the drivers use this
+   to pass sizes near 2^64, which [nat] cannot hold, as size+1) *)
+Lemma remove_clamp_lemma self b n m : size b <= n -> size b <= m ->
+  remove_front self b n = remove_front self b m /\ remove_back self b n = remove_back self b m.
+Proof.
+  intros Hn Hm. unfold remove_front, remove_back.
+  apply Nat.leb_le in Hn. apply Nat.leb_le in Hm. rewrite Hn, Hm. split; reflexivity.
+Qed.
+
+Lemma spec_remove_clamp_lemma (q : queue) n m : length q <= n -> length q <= m ->
+  skipn n q = skipn m q /\ firstn (length q - n) q = firstn (length q - m) q.
+Proof.
+  intros Hn Hm. split.
+  - rewrite !skipn_all2 by lia. reflexivity.
+  - replace (length q - n) with 0 by lia. replace (length q - m) with 0 by lia. reflexivity.
+Qed.
+
+(* ---- reserve / clear / free / attach / constructors ---------------------------------------- *)
+
+Lemma reserve_ok b c : inv b -> exists b', reserve_ b c = Ok b' /\ inv b' /\ exposed b' = exposed b.
+Proof.
+  intro I. unfold reserve_.
+  destruct (c <=? capf b) eqn:E; [exists b; auto|].
+  apply Nat.leb_gt in E.
+  pose proof (view_length b I) as Hv.
+  rewrite rd_win_prefix by (auto; unfold size; lia). cbn [bind]. unfold size.
+  rewrite firstn_all2 by lia.
+  set (c' := if c <? stop b - start b then stop b - start b else c).
+  assert (Hc' : stop b - start b <= c').
+  { subst c'. destruct (c <? stop b - start b) eqn:E2; [lia|apply Nat.ltb_ge in E2; lia]. }
+  rewrite wr_ok by (len; lia). cbn [bind].
+  destruct (finish_own (splice (new_array (c' + 1)) 0 (view b)) 0 (stop b - start b) c') as (b' & H1 & H2 & H3 & _);
+    [len; lia|lia|lia|].
+  exists b'. split; [exact H1|split; [exact H2|]]. rewrite H3, exposed_inv by exact I. list_eq.
+Qed.
+
+Lemma clear_ok b : inv b -> exists b', clear_ b = Ok b' /\ inv b' /\ exposed b' = [].
+Proof.
+  intro I. unfold clear_. unfold inv in I.
+  destruct (own b) as [a|] eqn:Eo.
+  - destruct I as (Hw & Hl & Hse & Hec & Ht).
+    destruct (finish_own a 0 0 (capf b)) as (b' & H1 & H2 & H3 & _); [lia|lia|lia|].
+    exists b'. split; [exact H1|split; [exact H2|]]. rewrite H3. reflexivity.
+  - destruct I as (Hc & I). eexists. split; [reflexivity|].
+    assert (I' : inv (mkbuf None (wb b) (start b) (start b) (capf b))).
+    { unfold inv; cbn [own wb start stop capf]. split; [exact Hc|]. destruct (wb b); [tauto|lia|lia]. }
+    split; [exact I'|]. rewrite exposed_inv by exact I'. unfold view; cbn [own wb start stop capf].
+    rewrite Nat.sub_diag. destruct (wb b); reflexivity.
+Qed.
+
+Lemma default_ok self : inv (default_ self) /\ exposed (default_ self) = [].
+Proof.
+  assert (I : inv (default_ self)) by (unfold inv, default_; cbn [own wb start stop capf]; lia).
+  split; [exact I|]. rewrite exposed_inv by exact I. reflexivity.
+Qed.
+
+Lemma free_ok self b : inv (free_ self b) /\ exposed (free_ self b) = [].
+Proof. exact (default_ok self). Qed.
+
+Lemma attach_ok b r : inv (attach_ b r) /\ exposed (attach_ b r) = known r.
+Proof.
+  assert (I : inv (attach_ b r)) by (unfold inv, attach_; cbn [own wb start stop capf]; lia).
+  split; [exact I|]. rewrite exposed_inv by exact I. unfold view, attach_; cbn [own wb start stop capf].
+  rewrite Nat.sub_0_r. f_equal. apply slice_all.
+Qed.
+
+Lemma ctor_cap_ok n : exists b', ctor_cap n = Ok b' /\ inv b' /\ exposed b' = [].
+Proof.
+  unfold ctor_cap.
+  destruct (finish_own (new_array (n + 1)) 0 0 n) as (b' & H1 & H2 & H3 & _); [len; lia|lia|lia|].
+  exists b'. split; [exact H1|split; [exact H2|]]. rewrite H3. reflexivity.
+Qed.
+
+Lemma ctor_data_ok d : exists b', ctor_data d = Ok b' /\ inv b' /\ exposed b' = d.
+Proof.
+  unfold ctor_data. rewrite wr_ok by (len; lia). cbn [bind].
+  destruct (finish_own (splice (new_array (length d + 1)) 0 d) 0 (length d) (length d)) as (b' & H1 & H2 & H3 & _);
+    [len; lia|lia|lia|].
+  exists b'. split; [exact H1|split; [exact H2|]]. rewrite H3. list_eq.
+Qed.
+
+(* ---- the reference relation on byte lists --------------------------------------------------- *)
+
+Lemma cr_refl l : Forall2 cell_ref l l.
+Proof. induction l; constructor; [right; reflexivity|assumption]. Qed.
+
+Lemma F2_firstn {A B} (R : A -> B -> Prop) n l l' : Forall2 R l l' -> Forall2 R (firstn n l) (firstn n l').
+Proof.
+  intro H. revert n. induction H as [|x y l l' Hxy H IH]; intros [|n]; cbn [firstn]; constructor; auto.
+Qed.
+
+Lemma F2_skipn {A B} (R : A -> B -> Prop) n l l' : Forall2 R l l' -> Forall2 R (skipn n l) (skipn n l').
+Proof.
+  intro H. revert n. induction H as [|x y l l' Hxy H IH]; intros [|n]; cbn [skipn]; try constructor; auto.
+Qed.
+
+Lemma F2_length {A B} (R : A -> B -> Prop) l l' : Forall2 R l l' -> length l = length l'.
+Proof. induction 1; cbn [length]; congruence. Qed.
+
+Lemma cr_none t k : length t = k -> Forall2 cell_ref t (repeat None k).
+Proof.
+  revert k. induction t as [|x t IH]; intros [|k] H; cbn [repeat length] in *; try discriminate; constructor.
+  - left; reflexivity.
+  - apply IH. congruence.
+Qed.
+
+Lemma cr_resize x q n t :
+  Forall2 cell_ref x q -> length t = n - length x -> Forall2 cell_ref (firstn n x ++ t) (q_resize q n).
+Proof.
+  intros H Ht. pose proof (F2_length _ _ _ H) as Hl. unfold q_resize.
+  destruct (n <=? length q) eqn:E.
+  - apply Nat.leb_le in E. replace t with (@nil cell) by (destruct t; [reflexivity|cbn [length] in Ht; lia]).
+    rewrite app_nil_r. apply F2_firstn; exact H.
+  - apply Nat.leb_gt in E. rewrite firstn_all2 by lia.
+    apply Forall2_app; [exact H|]. apply cr_none. lia.
+Qed.
+
+Lemma cmp_cells_ref x y x' y' :
+  Forall2 cell_ref x x' -> Forall2 cell_ref y y' -> ans_ref (cmp_cells x y) (cmp_cells x' y').
+Proof.
+  intro Hx. revert y y'. induction Hx as [|a a' x x' Ha Hx IH]; intros y y' Hy.
+  - destruct Hy as [|b b' y y' Hb Hy]; right; reflexivity.
+  - destruct Hy as [|b b' y y' Hb Hy].
+    + destruct a, a'; right; reflexivity.
+    + destruct Ha as [Ha|Ha]; [subst a'; left; destruct b'; reflexivity|]. subst a'.
+      destruct Hb as [Hb|Hb]; [subst b'; left; destruct a; reflexivity|]. subst b'.
+      destruct a as [a|]; [|right; reflexivity].
+      destruct b as [b|]; [|right; reflexivity].
+      cbn [cmp_cells]. destruct (Z.eqb a b); [apply IH; exact Hy|right; reflexivity].
+Qed.
+
+Lemma q_eq_ref x y x' y' :
+  Forall2 cell_ref x x' -> Forall2 cell_ref y y' -> ans_ref (q_eq x y) (q_eq x' y').
+Proof.
+  intros Hx Hy. unfold q_eq. rewrite (F2_length _ _ _ Hx), (F2_length _ _ _ Hy).
+  destruct (length x' =? length y'); [apply cmp_cells_ref; assumption|right; reflexivity].
+Qed.
+
+(* ---- worlds ------------------------------------------------------------------------------- *)
+
+Lemma Forall_upd {A} (P : A -> Prop) n x l : Forall P l -> P x -> Forall P (upd n x l).
+Proof.
+  intros H Hx. revert n. induction H as [|y l Hy H IH]; intros [|n]; cbn [upd]; constructor; auto.
+Qed.
+
+Lemma F2_upd {A B} (R : A -> B -> Prop) n x y l l' : Forall2 R l l' -> R x y -> Forall2 R (upd n x l) (upd n y l').
+Proof.
+  intros H Hxy. revert n. induction H as [|a b l l' Hab H IH]; intros [|n]; cbn [upd]; constructor; auto.
+Qed.
+
+Lemma F2_nth {A B} (R : A -> B -> Prop) l l' n :
+  Forall2 R l l' ->
+  match nth_error l' n with
+  | Some y => exists x, nth_error l n = Some x /\ R x y
+  | None => nth_error l n = None
+  end.
+Proof.
+  intro H. revert n. induction H as [|a b l l' Hab H IH]; intros [|n]; cbn [nth_error]; auto.
+  - exists a. auto.
+  - apply IH.
+Qed.
+
+Lemma Forall_nth {A} (P : A -> Prop) l n x : Forall P l -> nth_error l n = Some x -> P x.
+Proof. intros H Hn. rewrite Forall_forall in H. apply H. eapply nth_error_In; exact Hn. Qed.
+
+Lemma get_sim w qs v : winv w -> wref w qs ->
+  match nth_error qs v with
+  | Some q => exists b, get w v = Ok b /\ inv b /\ ref b q
+  | None => get w v = Err BadArg
+  end.
+Proof.
+  intros Iw Rw. pose proof (F2_nth _ _ _ v Rw) as H. unfold get.
+  destruct (nth_error qs v) as [q|].
+  - destruct H as (b & Hb & Hr). exists b. rewrite Hb. split; [reflexivity|split; [|exact Hr]].
+    eapply Forall_nth; eassumption.
+  - rewrite H. reflexivity.
+Qed.
+
+Definition sim_goal (r : res (world * option bool)) (s : option (list queue * option bool)) : Prop :=
+  match s with
+  | Some (qs', a') => exists w' a, r = Ok (w', a) /\ winv w' /\ wref w' qs' /\ ans_ref a a'
+  | None => r = Err BadArg
+  end.
+
+Lemma ret1_sim w qs v rb q' :
+  winv w -> wref w qs ->
+  (exists b', rb = Ok b' /\ inv b' /\ ref b' q') ->
+  sim_goal (ret1 w v rb) (Some (upd v q' qs, None)).
+Proof.
+  intros Iw Rw (b' & Hb & Ib & Rb). subst rb. unfold sim_goal, ret1. cbn [bind].
+  exists (upd v b' w), None. split; [reflexivity|].
+  split; [apply Forall_upd; assumption|split; [apply F2_upd; assumption|right; reflexivity]].
+Qed.
+
+Lemma on1_sim w qs v (F : buf -> res buf) (f : queue -> queue) :
+  winv w -> wref w qs ->
+  (forall b q, inv b -> ref b q -> exists b', F b = Ok b' /\ inv b' /\ ref b' (f q)) ->
+  sim_goal (do b <- get w v; ret1 w v (F b)) (on1 qs v f).
+Proof.
+  intros Iw Rw HF. pose proof (get_sim w qs v Iw Rw) as G. unfold on1.
+  destruct (nth_error qs v) as [q|].
+  - destruct G as (b & Hg & Ib & Rb). rewrite Hg. cbn [bind].
+    apply ret1_sim; auto.
+  - rewrite G. reflexivity.
+Qed.
+
+Lemma get2_sim w qs v x : winv w -> wref w qs ->
+  match nth_error qs v, nth_error qs x with
+  | Some q, Some p => exists b s, get w v = Ok b /\ get w x = Ok s /\ inv b /\ inv s /\ ref b q /\ ref s p
+  | _, _ => forall K : buf -> buf -> res (world * option bool), (do b <- get w v; do s <- get w x; K b s) = Err BadArg
+  end.
+Proof.
+  intros Iw Rw. pose proof (get_sim w qs v Iw Rw) as G1. pose proof (get_sim w qs x Iw Rw) as G2.
+  destruct (nth_error qs v) as [q|].
+  - destruct G1 as (b & Hb & Ib & Rb). destruct (nth_error qs x) as [p|].
+    + destruct G2 as (s & Hs & Is & Rs). exists b, s. auto 10.
+    + intro K. rewrite Hb, G2. reflexivity.
+  - intro K. rewrite G1. reflexivity.
+Qed.
+
+Lemma ref_eq b q E : exposed b = E -> Forall2 cell_ref E q -> ref b q.
+Proof. intros H H2. unfold ref. rewrite H. exact H2. Qed.
+
+Ltac finish_op H :=
+  let b' := fresh "b'" in let H1 := fresh "H1" in let H2 := fresh "H2" in let H3 := fresh "H3" in
+  destruct H as (b' & H1 & H2 & H3); exists b'; split; [exact H1|split; [exact H2|]];
+  eapply ref_eq; [exact H3|].
+
+Theorem step_sim_lemma w qs o : winv w -> wref w qs -> sim_goal (step w o) (spec_step qs o).
+Proof.
+  intros Iw Rw. pose proof (F2_length _ _ _ Rw) as Hlen.
+  destruct o as [ |n|d|x|v d|v x|v d|v d|v x|v d|v x|v n|v n|v n|v n|v|v|v x|v x];
+    cbn [step spec_step].
+  - (* ONew *)
+    exists (w ++ [default_ (length w)]), None. split; [reflexivity|].
+    destruct (default_ok (length w)) as [I E].
+    split; [apply Forall_app; split; [exact Iw|constructor; [exact I|constructor]]|].
+    split; [|right; reflexivity].
+    apply Forall2_app; [exact Rw|constructor; [|constructor]]. eapply ref_eq; [exact E|constructor].
+  - (* ONewCap *)
+    destruct (ctor_cap_ok n) as (b' & H1 & I & E). rewrite H1. cbn [bind].
+    exists (w ++ [b']), None. split; [reflexivity|].
+    split; [apply Forall_app; split; [exact Iw|constructor; [exact I|constructor]]|].
+    split; [|right; reflexivity].
+    apply Forall2_app; [exact Rw|constructor; [|constructor]]. eapply ref_eq; [exact E|constructor].
+  - (* ONewData *)
+    destruct (ctor_data_ok (known d)) as (b' & H1 & I & E). rewrite H1. cbn [bind].
+    exists (w ++ [b']), None. split; [reflexivity|].
+    split; [apply Forall_app; split; [exact Iw|constructor; [exact I|constructor]]|].
+    split; [|right; reflexivity].
+    apply Forall2_app; [exact Rw|constructor; [|constructor]]. eapply ref_eq; [exact E|apply cr_refl].
+  - (* ONewCopy *)
+    pose proof (get_sim w qs x Iw Rw) as G.
+    destruct (nth_error qs x) as [p|]; [|rewrite G; reflexivity].
+    destruct G as (s & Hs & Is & Rs). rewrite Hs. cbn [bind].
+    rewrite win_inv by exact Is. cbn [bind].
+    destruct (ctor_data_ok (view s)) as (b' & H1 & I & E). rewrite H1. cbn [bind].
+    exists (w ++ [b']), None. split; [reflexivity|].
+    split; [apply Forall_app; split; [exact Iw|constructor; [exact I|constructor]]|].
+    split; [|right; reflexivity].
+    apply Forall2_app; [exact Rw|constructor; [|constructor]]. eapply ref_eq; [exact E|].
+    rewrite <- exposed_inv by exact Is. exact Rs.
+  - (* OAttach *)
+    apply (on1_sim w qs v (fun b => Ok (attach_ b d)) (fun _ => known d) Iw Rw).
+    intros b q Ib Rb. destruct (attach_ok b d) as [I E].
+    exists (attach_ b d). split; [reflexivity|split; [exact I|]]. eapply ref_eq; [exact E|apply cr_refl].
+  - (* OAsg *)
+    pose proof (get2_sim w qs v x Iw Rw) as G. unfold on2.
+    destruct (nth_error qs v) as [q|] eqn:Eq; [destruct (nth_error qs x) as [p|] eqn:Ep|];
+      [|exact (G _)|exact (G _)].
+    destruct G as (b & s & Hb & Hs & Ib & Is & Rb & Rs). rewrite Hb, Hs. cbn [bind].
+    destruct (v =? x) eqn:Evx.
+    + apply Nat.eqb_eq in Evx. subst x. assert (p = q) by congruence. subst p.
+      exists w, None. split; [reflexivity|split; [exact Iw|split; [|right; reflexivity]]].
+      replace (upd v q qs) with qs; [exact Rw|].
+      clear -Eq. revert v Eq. induction qs as [|h t IH]; intros [|v] Eq; cbn [upd nth_error] in *; try discriminate.
+      * congruence.
+      * f_equal. apply IH. exact Eq.
+    + rewrite win_inv by exact Is. cbn [bind]. apply ret1_sim; auto.
+      pose proof (assign_ok b (view s) Ib) as H. finish_op H.
+      rewrite <- exposed_inv by exact Is. exact Rs.
+  - (* OAssign *)
+    apply (on1_sim w qs v (fun b => assign_ b (known d)) (fun _ => known d) Iw Rw).
+    intros b q Ib Rb. pose proof (assign_ok b (known d) Ib) as H. finish_op H. apply cr_refl.
+  - (* OPrepend *)
+    apply (on1_sim w qs v (fun b => prepend_ b (known d)) (fun q => known d ++ q) Iw Rw).
+    intros b q Ib Rb. pose proof (prepend_ok b (known d) Ib) as H. finish_op H.
+    apply Forall2_app; [apply cr_refl|exact Rb].
+  - (* OPrependB *)
+    pose proof (get2_sim w qs v x Iw Rw) as G. unfold on2.
+    destruct (nth_error qs v) as [q|] eqn:Eq; [destruct (nth_error qs x) as [p|] eqn:Ep|];
+      [|exact (G _)|exact (G _)].
+    destruct G as (b & s & Hb & Hs & Ib & Is & Rb & Rs). rewrite Hb, Hs. cbn [bind].
+    rewrite win_inv by exact Is. cbn [bind].
+    destruct (v =? x) eqn:Evx.
+    + destruct (ctor_data_ok (view s)) as (t & Ht & It & Et). rewrite Ht. cbn [bind].
+      rewrite win_inv by exact It. cbn [bind]. apply ret1_sim; auto.
+      pose proof (prepend_ok b (view t) Ib) as H. finish_op H.
+      apply Forall2_app; [|exact Rb].
+      rewrite <- exposed_inv by exact It. rewrite Et. rewrite <- exposed_inv by exact Is. exact Rs.
+    + apply ret1_sim; auto.
+      pose proof (prepend_ok b (view s) Ib) as H. finish_op H.
+      apply Forall2_app; [|exact Rb]. rewrite <- exposed_inv by exact Is. exact Rs.
+  - (* OAppend *)
+    apply (on1_sim w qs v (fun b => append_ b (known d)) (fun q => q ++ known d) Iw Rw).
+    intros b q Ib Rb. pose proof (append_ok b (known d) Ib) as H. finish_op H.
+    apply Forall2_app; [exact Rb|apply cr_refl].
+  - (* OAppendB *)
+    pose proof (get2_sim w qs v x Iw Rw) as G. unfold on2.
+    destruct (nth_error qs v) as [q|] eqn:Eq; [destruct (nth_error qs x) as [p|] eqn:Ep|];
+      [|exact (G _)|exact (G _)].
+    destruct G as (b & s & Hb & Hs & Ib & Is & Rb & Rs). rewrite Hb, Hs. cbn [bind].
+    destruct (v =? x) eqn:Evx.
+    + apply Nat.eqb_eq in Evx. subst x. assert (p = q) by congruence. subst p.
+      apply ret1_sim; auto.
+      pose proof (append_self_ok b Ib) as H. finish_op H.
+      apply Forall2_app; exact Rb.
+    + rewrite win_inv by exact Is. cbn [bind]. apply ret1_sim; auto.
+      pose proof (append_ok b (view s) Ib) as H. finish_op H.
+      apply Forall2_app; [exact Rb|]. rewrite <- exposed_inv by exact Is. exact Rs.
+  - (* OResize *)
+    apply (on1_sim w qs v (fun b => resize_ b n) (fun q => q_resize q n) Iw Rw).
+    intros b q Ib Rb. destruct (resize_ok b n Ib) as (b' & t & H1 & H2 & H3 & H4 & _).
+    exists b'. split; [exact H1|split; [exact H2|]]. eapply ref_eq; [exact H3|].
+    apply cr_resize; [exact Rb|]. rewrite exposed_length by exact Ib. exact H4.
+  - (* OReserve *)
+    apply (on1_sim w qs v (fun b => reserve_ b n) (fun q => q) Iw Rw).
+    intros b q Ib Rb. pose proof (reserve_ok b n Ib) as H. finish_op H. exact Rb.
+  - (* ORemoveFront *)
+    apply (on1_sim w qs v (fun b => remove_front v b n) (fun q => skipn n q) Iw Rw).
+    intros b q Ib Rb. pose proof (remove_front_ok v b n Ib) as H. finish_op H. apply F2_skipn; exact Rb.
+  - (* ORemoveBack *)
+    apply (on1_sim w qs v (fun b => remove_back v b n) (fun q => firstn (length q - n) q) Iw Rw).
+    intros b q Ib Rb. pose proof (remove_back_ok v b n Ib) as H. finish_op H.
+    rewrite <- (F2_length _ _ _ Rb), exposed_length by exact Ib. apply F2_firstn; exact Rb.
+  - (* OClear *)
+    apply (on1_sim w qs v (fun b => clear_ b) (fun _ => []) Iw Rw).
+    intros b q Ib Rb. pose proof (clear_ok b Ib) as H. finish_op H. constructor.
+  - (* OFree *)
+    apply (on1_sim w qs v (fun b => Ok (free_ v b)) (fun _ => []) Iw Rw).
+    intros b q Ib Rb. destruct (free_ok v b) as [I E].
+    exists (free_ v b). split; [reflexivity|split; [exact I|]]. eapply ref_eq; [exact E|constructor].
+  - (* OSwap *)
+    pose proof (get2_sim w qs v x Iw Rw) as G.
+    destruct (nth_error qs v) as [q|] eqn:Eq; [destruct (nth_error qs x) as [p|] eqn:Ep|];
+      [|exact (G _)|exact (G _)].
+    destruct G as (b & s & Hb & Hs & Ib & Is & Rb & Rs). rewrite Hb, Hs. cbn [bind].
+    exists (upd x b (upd v s w)), None. split; [reflexivity|].
+    split; [apply Forall_upd; [apply Forall_upd|]; assumption|].
+    split; [apply F2_upd; [apply F2_upd|]; assumption|right; reflexivity].
+  - (* OEq *)
+    pose proof (get2_sim w qs v x Iw Rw) as G.
+    destruct (nth_error qs v) as [q|] eqn:Eq; [destruct (nth_error qs x) as [p|] eqn:Ep|];
+      [|exact (G _)|exact (G _)].
+    destruct G as (b & s & Hb & Hs & Ib & Is & Rb & Rs). rewrite Hb, Hs. cbn [bind].
+    rewrite !win_inv by assumption. cbn [bind].
+    exists w, (q_eq (view b) (view s)). split; [reflexivity|split; [exact Iw|split; [exact Rw|]]].
+    rewrite <- !exposed_inv by assumption. apply q_eq_ref; assumption.
+Qed.
+
+(* ---- histories ------------------------------------------------------------------------------ *)
+
+Definition run_goal (r : res (world * list (option bool))) (s : option (list queue * list (option bool))) : Prop :=
+  match s with
+  | Some (qs', rs') => exists w' rs, r = Ok (w', rs) /\ winv w' /\ wref w' qs' /\ Forall2 ans_ref rs rs'
+  | None => r = Err BadArg
+  end.
+
+Lemma run_sim_lemma ops : forall w qs, winv w -> wref w qs -> run_goal (run w ops) (spec_run qs ops).
+Proof.
+  induction ops as [|o rest IH]; intros w qs Iw Rw; cbn [run spec_run].
+  - exists w, []. auto.
+  - pose proof (step_sim_lemma w qs o Iw Rw) as S. unfold sim_goal in S.
+    destruct (spec_step qs o) as [[qs1 a1']|].
+    + destruct S as (w1 & a1 & H1 & Iw1 & Rw1 & Ha1). rewrite H1. cbn [bind fst snd].
+      pose proof (IH w1 qs1 Iw1 Rw1) as R. unfold run_goal in R.
+      destruct (spec_run qs1 rest) as [[qs2 rs2']|].
+      * destruct R as (w2 & rs2 & H2 & Iw2 & Rw2 & Hrs). rewrite H2. cbn [bind fst snd].
+        exists w2, (a1 :: rs2). split; [reflexivity|split; [exact Iw2|split; [exact Rw2|]]].
+        constructor; assumption.
+      * rewrite R. reflexivity.
+    + rewrite S. reflexivity.
+Qed.
+
+Lemma wref_self w : wref w (map exposed w).
+Proof. induction w; constructor; [apply cr_refl|assumption]. Qed.
+
+Inductive reachable : world -> Prop :=
+| reach_init : reachable []
+| reach_step w o w' a : reachable w -> step w o = Ok (w', a) -> reachable w'.
+
+Lemma step_inv_lemma w o w' a : winv w -> step w o = Ok (w', a) -> winv w'.
+Proof.
+  intros Iw H. pose proof (step_sim_lemma w (map exposed w) o Iw (wref_self w)) as S. unfold sim_goal in S.
+  destruct (spec_step (map exposed w) o) as [[qs1 a1']|].
+  - destruct S as (w1 & a1 & H1 & Iw1 & _). congruence.
+  - congruence.
+Qed.
+
+Lemma reachable_inv_lemma w : reachable w -> winv w.
+Proof.
+  induction 1 as [|w o w' a Hr IH Hs]; [constructor|]. eapply step_inv_lemma; eassumption.
+Qed.
+
+Lemma step_safe_lemma w o e : winv w -> step w o = Err e -> e = BadArg /\ spec_step (map exposed w) o = None.
+Proof.
+  intros Iw H. pose proof (step_sim_lemma w (map exposed w) o Iw (wref_self w)) as S. unfold sim_goal in S.
+  destruct (spec_step (map exposed w) o) as [[qs1 a1']|].
+  - destruct S as (w1 & a1 & H1 & _). congruence.
+  - split; [congruence|reflexivity].
+Qed.
+
+Lemma run_reachable_lemma ops : forall w w' rs, reachable w -> run w ops = Ok (w', rs) -> reachable w'.
+Proof.
+  induction ops as [|o rest IH]; intros w w' rs Hr H; cbn [run] in H.
+  - congruence.
+  - destruct (step w o) as [[w1 a1]|e] eqn:E1; cbn [bind fst snd] in H; [|discriminate].
+    destruct (run w1 rest) as [[w2 rs2]|e] eqn:E2; cbn [bind fst snd] in H; [|discriminate].
+    assert (w2 = w') by congruence. subst w2.
+    eapply IH; [|exact E2]. eapply reach_step; eassumption.
+Qed.
+
+Lemma run_safe_lemma ops e : run [] ops = Err e -> e = BadArg /\ spec_run [] ops = None.
+Proof.
+  intro H. pose proof (run_sim_lemma ops [] [] (Forall_nil _) (Forall2_nil _)) as R. unfold run_goal in R.
+  destruct (spec_run [] ops) as [[qs rs]|].
+  - destruct R as (w' & rs' & H1 & _). congruence.
+  - split; [congruence|reflexivity].
+Qed.
+
+Lemma terminator_lemma w b : reachable w -> In b w -> owns b = true ->
+  exists a, own b = Some a /\ length a = capf b + 1 /\ stop b < length a /\
+            nth_error a (stop b) = Some (Some 0%Z) /\ after_end b = Some (Some 0%Z).
+Proof.
+  intros Hr Hin Ho. pose proof (reachable_inv_lemma w Hr) as Iw.
+  unfold winv in Iw. rewrite Forall_forall in Iw. pose proof (Iw b Hin) as I.
+  unfold inv in I. unfold owns in Ho. unfold after_end.
+  destruct (own b) as [a|]; [|discriminate].
+  destruct I as (Hw & Hl & Hse & Hec & Ht). exists a. rewrite Hw.
+  repeat split; try assumption; lia.
+Qed.
+
+(* the representation invariant, spelled out *)
+Lemma rep_lemma w b : reachable w -> In b w ->
+  match own b with
+  | Some a => wb b = BOwn /\ length a = capf b + 1 /\ start b <= stop b /\ stop b <= capf b
+  | None => capf b = 0 /\
+            match wb b with
+            | BOwn => False
+            | BReg r => start b <= stop b /\ stop b <= length r
+            | BCap _ => start b = 0 /\ stop b = 0
+            end
+  end.
+Proof.
+  intros Hr Hin. pose proof (reachable_inv_lemma w Hr) as Iw.
+  unfold winv in Iw. rewrite Forall_forall in Iw. pose proof (Iw b Hin) as I.
+  unfold inv in I. destruct (own b); tauto.
+Qed.
+
+(* a successful write through a pointer that is not into the own allocation wrote nothing *)
+Lemma wr_win_foreign_lemma b off d b' : wr_win b off d = Ok b' -> wb b <> BOwn -> d = [] /\ b' = b.
+Proof.
+  unfold wr_win. intros H Hn.
+  destruct (wb b) as [|r|v]; [congruence| |]; (destruct d; [split; [reflexivity|congruence]|discriminate]).
+Qed.
